@@ -11,9 +11,12 @@
 (* pkg/blobstore/batched_store_blob_access.go (Put / flushLocked / the     *)
 (* flush callback) that sits on top of the global CAS.  One action per     *)
 (* storage call and per return of the real code; every storage call may    *)
-(* succeed, fail, or be cancelled (cancel = the request context is         *)
-(* cancelled, after which every later storage call fails), so TLC visits   *)
-(* every fault position of every small scenario.                           *)
+(* succeed, fail, be cancelled (cancel = the call fails because the        *)
+(* request context is cancelled, after which every later storage call      *)
+(* fails), or succeed with the request context being cancelled right       *)
+(* afterwards ("okcancel": a cancellation that no storage call reports;    *)
+(* the code only notices it where it looks at the context itself), so TLC  *)
+(* visits every fault position of every small scenario.                    *)
 (*                                                                         *)
 (* The base executor is the well-behaved one of local_build_executor.go:   *)
 (* a digest is referenced by the response only if its Put returned nil; a  *)
@@ -91,8 +94,10 @@ Inflight == {i \in Idx : bufs[i].st = "inflight"}
 PendingDigests == {bufs[i].d : i \in Pending}
 
 \* Results a storage call can have now.
-Results == IF cancelled THEN {"fail"} ELSE {"ok", "fail", "cancel"}
-Cancel(r) == cancelled' = (cancelled \/ r = "cancel")
+AllResults == {"ok", "fail", "cancel", "okcancel"}
+Results == IF cancelled THEN {"fail"} ELSE AllResults
+Cancel(r) == cancelled' = (cancelled \/ r \in {"cancel", "okcancel"})
+Succeeded(r) == r \in {"ok", "okcancel"}
 
 Consume(b, S, state) ==
   [i \in DOMAIN b |-> IF i \in S THEN [b[i] EXCEPT !.st = state, !.n = @ + 1] ELSE b[i]]
@@ -152,7 +157,7 @@ BaseReturn ==
 FlushFindMissing(r) ==
   /\ pc = "flush" /\ fl.phase = "fm" /\ r \in Results
   /\ Cancel(r)
-  /\ IF r = "ok"
+  /\ IF Succeeded(r)
      THEN /\ fl' = [fl EXCEPT !.phase = "puts",
                               !.left = {i \in Pending : bufs[i].d \notin cas}]
           /\ UNCHANGED casFailed
@@ -162,10 +167,14 @@ FlushFindMissing(r) ==
                  acked, otherFailed>>
 
 \* flushLocked: acquire the semaphore, take the buffer out of the pending
-\* map and start its Put in a goroutine.
+\* map and start its Put in a goroutine.  The semaphore is not acquired
+\* once the request context is done.  (After a failed Put it still may be:
+\* the failing goroutine releases the semaphore before the group context is
+\* cancelled.)
 FlushPutStart(i) ==
   /\ pc = "flush" /\ fl.phase = "puts" /\ i \in fl.left
   /\ Cardinality(Inflight) < sem
+  /\ ~cancelled
   /\ bufs' = [bufs EXCEPT ![i].st = "inflight"]
   /\ fl' = [fl EXCEPT !.left = @ \ {i}]
   /\ UNCHANGED <<batch, sem, dnc, reqGood, pc, flushError, fret, cas, ac, resp,
@@ -185,7 +194,7 @@ FlushPutEnd(i, r) ==
   /\ pc = "flush" /\ i \in Inflight /\ r \in Results
   /\ Cancel(r)
   /\ bufs' = Consume(bufs, {i}, "put")
-  /\ IF r = "ok"
+  /\ IF Succeeded(r)
      THEN cas' = cas \cup {bufs[i].d} /\ UNCHANGED <<fl, casFailed>>
      ELSE cas' = cas /\ fl' = [fl EXCEPT !.gerr = TRUE] /\ casFailed' = TRUE
   /\ UNCHANGED <<batch, sem, dnc, reqGood, pc, flushError, fret, ac, resp,
@@ -234,7 +243,7 @@ CachingDecide ==
 ACPut(r) ==
   /\ pc = "acput" /\ r \in Results
   /\ Cancel(r)
-  /\ IF r = "ok"
+  /\ IF Succeeded(r)
      THEN /\ ac' = [present |-> TRUE, statusOK |-> resp.statusOK, exit |-> resp.exit,
                     refs |-> resp.refs, snap |-> cas]
           /\ UNCHANGED <<resp, otherFailed>>
@@ -250,7 +259,7 @@ ACPut(r) ==
 HistoricalPut(r) ==
   /\ pc = "hput" /\ r \in Results
   /\ Cancel(r)
-  /\ IF r = "ok"
+  /\ IF Succeeded(r)
      THEN UNCHANGED <<resp, otherFailed>>
      ELSE resp' = [resp EXCEPT !.statusOK = FALSE] /\ otherFailed' = TRUE
   /\ pc' = "done"
@@ -260,15 +269,15 @@ HistoricalPut(r) ==
 Next ==
   \/ \E d \in Blobs : BasePut(d)
   \/ BaseReturn
-  \/ \E r \in {"ok", "fail", "cancel"} : FlushFindMissing(r)
+  \/ \E r \in AllResults : FlushFindMissing(r)
   \/ \E i \in Idx : FlushPutStart(i)
   \/ FlushAbort
-  \/ \E i \in Idx : \E r \in {"ok", "fail", "cancel"} : FlushPutEnd(i, r)
+  \/ \E i \in Idx : \E r \in AllResults : FlushPutEnd(i, r)
   \/ FlushEnd
   \/ PruneOnError
   \/ CachingDecide
-  \/ \E r \in {"ok", "fail", "cancel"} : ACPut(r)
-  \/ \E r \in {"ok", "fail", "cancel"} : HistoricalPut(r)
+  \/ \E r \in AllResults : ACPut(r)
+  \/ \E r \in AllResults : HistoricalPut(r)
 
 Spec == Init /\ [][Next]_vars
 
